@@ -67,11 +67,13 @@ fn run_buffer_t<T: PartialEq + std::fmt::Debug + Clone + Send + 'static>(cap: us
                 // Alternate between two clones of the writer.
                 if next % 2 == 0 { w.write(mk(next)) } else { w2.write(mk(next)) };
                 if open {
-                    if model.len() == cap {
+                    // Specification: the buffer retains exactly the most recent
+                    // `cap` events (none at all for a capacity of zero).
+                    model.push_back(mk(next));
+                    while model.len() > cap {
                         model.pop_front();
                         st.overflows += 1;
                     }
-                    model.push_back(mk(next));
                 } else {
                     st.ignored_writes += 1;
                 }
@@ -211,7 +213,7 @@ pub fn run(opts: &Opts) -> Report {
         rep.extra.insert("exhaustive_len".into(), (len as u64).into());
         rep.extra.insert("exhaustive_total_sequences".into(), case.into());
         for (c, ops) in &seqs {
-            for cap in 1..=4usize {
+            for cap in 0..=4usize {
                 for closed in [false, true] {
                     let what = format!("buffer cap={} initially_closed={}", cap, closed);
                     record(&mut rep, opts, "model", *c, &what, ops, run_buffer(cap, closed, ops));
@@ -237,7 +239,7 @@ pub fn run(opts: &Opts) -> Report {
                 10 => Op::Close,
                 _ => Op::Drain,
             }).collect();
-            let cap = *rng.pick(&[1usize, 2, 3, 5, 16, 64]);
+            let cap = *rng.pick(&[0usize, 1, 2, 3, 5, 16, 64]);
             let what = format!("buffer cap={} random", cap);
             record(&mut rep, opts, "model", 1_000_000_000 + c, &what, &ops, run_buffer(cap, rng.chance(1, 2), &ops));
             record(&mut rep, opts, "model", 1_000_000_000 + c, "slot random", &ops, run_slot(rng.chance(1, 2), &ops));
